@@ -7,7 +7,7 @@ TRUSTED_BASE = [
     "the reading of the English property as the Coq statements in coq/Props (DESIGN.md section 6)",
 ]
 
-HOOK_COMMITS = []
+HOOK_COMMITS = ["461a825"]
 NOT_APPLICABLE = {}
 
 DOMAINS = {
@@ -15,6 +15,8 @@ DOMAINS = {
     "ranges": {"timeout": 2400},
     "rangeord": {"timeout": 2400},
     "rangeq": {"timeout": 2400},
+    "terms": {"timeout": 2400},
+    "bitset": {"timeout": 2400},
 }
 
 RANGE_NOTE = ("Trusted: Coq kernel, ExtrOcamlBasic extraction, harness/driver. Range<V> is modelled by the slice of its segments "
@@ -34,6 +36,18 @@ PROPS = {
         "rule": "all canonical ranges over bound values {10,20,30} = subsets of the 7 cells (-inf,10),{10},(10,20),...,(30,inf): 128 ranges x 3 construction trees (unary ops) and all 128^2 ordered pairs (binary ops, predicates, ==, cmp, hash), each built through the public API only; thorough adds k=4 (512 ranges, 262144 pairs). distinct = distinct case text; non-trivial = every case (each evaluates the operations on a distinct pair of sets).",
         "assumptions": ["order-isomorphism: the code only compares bound values, so behaviour depends only on their relative order (property text)",
                         "SmallVec abstracted to as_slice; std slice::binary_search_by trusted"],
+    },
+    "C11": {
+        "props": "Props/Properties_C11.v",
+        "level": "proof",
+        "technique": "Coq proof over any lawful VersionSet that the seven Term operations equal evaluation on every choice + exhaustive small-scope correspondence through cfg hooks",
+        "level_text": "13 Coq obligations: for every lawful VersionSet (laws in Proofs/VSLaws.v) and well-formed terms, negate/intersection/union are pointwise not/and/or over all choices (each point, or not selected); subset_of, is_disjoint, relation_with (Satisfied/Contradicted/Inconclusive) and contains are characterised by quantification over all choices; any/empty are always/never true; Range over any ordered version type and the 8-version bitset are proved lawful (non-vacuity). The pre-repair (Negative,Negative) arm of is_disjoint is refuted by a theorem (finding F2, fixed in /repo). Tie: all 64x64 pairs of terms over ranges on 2 bound values, the extremes against everything and 20000 seeded pairs on 3 bound values (thorough: all 256x256), plus 20000 term pairs over BitSet8, through the cfg(pubgrub_verif) wrappers; every result compared with the extracted model and re-evaluated on every choice by an independent oracle.",
+        "level_note": "Trusted: Coq kernel, extraction, harness/driver, the add-only cfg(pubgrub_verif) wrapper module in src/term.rs (thin calls). The theorems assume the VersionSet laws, which are proved for Range (canonical ranges) and for the bitset.",
+        "domains": ["terms", "bitset"],
+        "case_filter": {"bitset": r"^\(bt2 "},
+        "exhaustive": True,
+        "rule": "terms = sign x canonical range; all ordered pairs over 2 bound values (64x64), always-true/never-true/empty/full extremes against all 256 terms over 3 bound values, 20000 seeded pairs (quick) or all 65536 (thorough); BitSet8 terms: 20000 seeded + extremes. distinct = distinct case text; all non-trivial (each pair evaluates 7 operations).",
+        "assumptions": ["choices are evaluated at one representative per cell of the bound values (order-isomorphism, as C10)"],
     },
     "C15": {
         "props": "Props/Properties_C15.v",
@@ -56,6 +70,17 @@ PROPS = {
         "exhaustive": True,
         "rule": "all 128^2 ordered pairs of canonical ranges over 3 bound values, the two sides built through different API trees (cmp, partial_cmp, reverse cmp, ==, hash equality); triples: 20000 seeded (quick) / all 128^3 (thorough). distinct = distinct case text; all non-trivial.",
         "assumptions": ["std::hash::Hash for tuples/Bound/u32 and the hashers are trusted"],
+    },
+    "C17": {
+        "props": "Props/Properties_C17.v",
+        "level": "proof",
+        "technique": "Coq proof that the four provided VersionSet methods are correct for any lawful implementation of the required ones + exhaustive BitSet8 correspondence",
+        "level_text": "6 Coq obligations: for any implementation whose required methods satisfy the set laws with canonical equality (ReqLawful), full/union/is_disjoint/subset_of defaults compute the universe, union, emptiness of intersection and inclusion, hence the trait with inherited methods is a lawful VersionSet (vs_defaults_lawful); the bitset over 8 versions is such an implementation (by complete enumeration inside Coq). The solver half of C17 is carried by stating every solver theorem over an arbitrary lawful VersionSet (see C01..C14 entries). Tie: a Rust BitSet8 implementing only the required methods, all provided methods compared with the model on 256x256 pairs (quick: a quarter + extremes), and used as DP::VS in the solver correspondence.",
+        "level_note": "Trusted: Coq kernel (vm_compute used for the 256x256x8 enumeration proving the bitset laws), extraction, harness/driver. An unlawful VersionSet is outside every statement.",
+        "domains": ["bitset"],
+        "exhaustive": True,
+        "rule": "all 8 singletons; pairs (a,b) of 8-bit masks: all with a or b in {0..3,252..255} plus a seeded quarter of the rest (quick) / all 65536 (thorough); BitSet8 terms 20000 (quick) / 200000 (thorough). distinct = distinct case text; all non-trivial.",
+        "assumptions": ["versions of BitSet8 are 0..7 only (1u8 << v overflows beyond)"],
     },
     "C20": {
         "props": "Props/Properties_C20.v",
